@@ -66,7 +66,7 @@ def kernel_oracle(case, out):
 def api_cases(chk, tier):
     rng = chk.rng
     out = []
-    plan = {"p": 12, "o": 12, "i": 1} if tier == "quick" else {"p": 120, "o": 120, "i": 24}
+    plan = {"p": 12, "o": 12, "i": 8} if tier == "quick" else {"p": 120, "o": 120, "i": 24}
     for d, cnt in plan.items():
         combos = [(op, kx, ky) for op in ("Add", "Sub", "Mul", "Div")
                   for kx in ("pos", "neg", "straddle", "steps", "interval") for ky in ("pos", "neg", "straddle", "precise")]
